@@ -23,9 +23,11 @@ fn opts(fs: &Arc<TmpFileSystem>, reuse: bool) -> DbOptions {
     }
 }
 
-fn scenario(seed: u64) -> Vec<Fail> {
+fn scenario(seed: u64, drv_path: String) -> Vec<Fail> {
     let mut rng = Prng::new(seed);
     let mut fails = vec![];
+    // (action token for the model, did it succeed in the implementation)
+    let mut observed: Vec<(String, bool)> = vec![("o0".to_string(), true)];
     let base = std::env::temp_dir().join(format!("rainverif-c17-{}-{}", std::process::id(), seed));
     let _ = std::fs::create_dir_all(&base);
     let fs = Arc::new(TmpFileSystem::new(Some(&base)));
@@ -62,10 +64,14 @@ fn scenario(seed: u64) -> Vec<Fail> {
             }
         }));
     }
-    for h in hs {
+    for (t, h) in hs.into_iter().enumerate() {
+        let tok = if t % 2 == 1 { "d".to_string() } else { format!("o{}", t + 1) };
         match h.join() {
-            Ok(Some(msg)) => fails.push((if msg.starts_with("destroy") { "c17:destroy-while-open".into() } else { "c17:second-open-succeeds".into() }, msg)),
-            Ok(None) => {}
+            Ok(Some(msg)) => {
+                observed.push((tok, true));
+                fails.push((if msg.starts_with("destroy") { "c17:destroy-while-open".into() } else { "c17:second-open-succeeds".into() }, msg))
+            }
+            Ok(None) => observed.push((tok, false)),
             Err(_) => fails.push(("c17:panic".into(), "an open/destroy attempt panicked".into())),
         }
     }
@@ -85,6 +91,7 @@ fn scenario(seed: u64) -> Vec<Fail> {
     expect.insert(b"after".to_vec(), b"x".to_vec());
     owner.verif_wait_idle(std::time::Duration::from_secs(20));
     drop(owner);
+    observed.push(("c0".to_string(), true));
     // after close: racing opens, exactly one wins
     let nrace = rng.range(2, 5) as usize;
     let barrier = Arc::new(Barrier::new(nrace));
@@ -102,6 +109,18 @@ fn scenario(seed: u64) -> Vec<Fail> {
             Ok(Some(d)) => winners.push(d),
             Ok(None) => {}
             Err(_) => fails.push(("c17:panic".into(), "a racing open panicked".into())),
+        }
+    }
+    // the model serves the racing attempts in some order: the first wins, the others fail
+    for r in 0..nrace {
+        observed.push((format!("o{}", 10 + r), r == 0 && winners.len() == 1));
+    }
+    if drv_path != "none" {
+        let mut drv = crate::drv::Drv::spawn(&drv_path);
+        let ans = drv.ask(&format!("proto.lock {}", observed.iter().map(|x| x.0.as_str()).collect::<Vec<_>>().join(" ")));
+        let want = observed.iter().map(|x| if x.1 { "1" } else { "0" }).collect::<Vec<_>>().join(" ");
+        if ans != want && winners.len() == 1 && fails.is_empty() {
+            fails.push(("c17:model-drift".into(), format!("lock protocol model predicts [{ans}], implementation did [{want}] for actions {:?}", observed.iter().map(|x| x.0.clone()).collect::<Vec<_>>())));
         }
     }
     if winners.len() != 1 {
@@ -137,7 +156,7 @@ pub fn rule() -> &'static str {
     "disk-backed TmpFileSystem: an owner opens and writes; 2-4 barrier-released threads concurrently try DB::open / destroy_database on the same path (all must fail, the owner keeps reading and writing correctly); after the owner closes, 2-5 barrier-released opens race (exactly one wins and sees every write); destroy_database afterwards. Non-trivial = the scenario ran; distinct by seed."
 }
 
-pub fn run(tier: &str, seed: u64, replay: Option<&str>) -> Report {
+pub fn run(tier: &str, seed: u64, replay: Option<&str>, drv_path: &str) -> Report {
     crate::lsm::install_panic_hook();
     let mut rep = Report::new("c17", rule());
     let n = if tier == "thorough" { 400 } else { 40 };
@@ -149,11 +168,18 @@ pub fn run(tier: &str, seed: u64, replay: Option<&str>) -> Report {
     for s in seeds {
         let line = format!("c17 seed={s}");
         rep.case(&line, true);
-        match with_deadline(60, move || scenario(s)) {
+        let dp = drv_path.to_string();
+        rep.model_requests += if drv_path != "none" { 1 } else { 0 };
+        match with_deadline(60, move || scenario(s, dp)) {
             None => rep.fail("hang", "c17:hang", "scenario did not finish within 60 s", &line),
             Some(fails) => {
                 for (sig, what) in fails {
-                    rep.fail("oracle", &sig, &what, &line);
+                    if sig == "c17:model-drift" {
+                        rep.drift.push(format!("{what} :: {line}"));
+                        rep.count("model_drift");
+                    } else {
+                        rep.fail("oracle", &sig, &what, &line);
+                    }
                 }
             }
         }
